@@ -271,6 +271,9 @@ fn perturb(t: &R, rng: &mut Rng) -> R {
                 K::Lambda(i) if rng.below(10) == 0 => K::Lambda(!*i),
                 K::Pi(i) if rng.below(10) == 0 => K::Pi(!*i),
                 K::Sum if rng.below(12) == 0 => K::Difference,
+                K::Integer if rng.below(6) == 0 => K::Boolean,
+                K::Type if rng.below(10) == 0 => K::Integer,
+                K::True if rng.below(8) == 0 => K::False,
                 K::Ge if rng.below(6) == 0 => K::Gt,
                 other => other.clone(),
             };
@@ -284,6 +287,12 @@ fn perturb(t: &R, rng: &mut Rng) -> R {
             R::Node(k2, out)
         }
     }
+}
+
+fn trace(input: &str) {
+    // GRAM_WITNESS_TRACE=1: name every case before the real function runs, so that a crash of the real code (stack overflow
+    // aborts the process; it cannot be caught) can be attributed to its input by the driver
+    if std::env::var_os("GRAM_WITNESS_TRACE").is_some() { eprintln!("TRACE {input}"); }
 }
 
 fn case_conv(target: &str, rng: &mut Rng) -> Option<(String, String, String, usize)> {
@@ -300,8 +309,9 @@ fn case_conv(target: &str, rng: &mut Rng) -> Option<(String, String, String, usi
             let rctx = gen_ctx(rng, with_defs);
             let want = reference::r_whnf(&t, &rctx, &mut fuel)?;   // skipped when the reference runs out of fuel (possible divergence)
             let mut ctx = real_ctx(&rctx);
-            let got = to_r(&normalizer::normalize_weak_head(&real_t, &mut ctx));
             let input = format!("normalize_weak_head({}) under {}{tag}", reference::show(&t), show_ctx(&rctx));
+            trace(&input);
+            let got = to_r(&normalizer::normalize_weak_head(&real_t, &mut ctx));
             let weight = size(&t) + rctx.iter().map(|e| e.as_ref().map_or(0, |(d, _)| size(d))).sum::<usize>();
             if !same_ctx(&ctx, &rctx) { return Some((input, format!("context of length {}", ctx.len()), "context unchanged".to_owned(), weight)); }
             if got != want { return Some((input, reference::show(&got), reference::show(&want), weight)); }
@@ -310,11 +320,17 @@ fn case_conv(target: &str, rng: &mut Rng) -> Option<(String, String, String, usi
             let t2 = if rng.below(4) == 0 { gen_term(rng, depth, 2) } else { perturb(&t, rng) };
             let real_t2 = from_r(&t2);
             let want = reference::r_erase(&t) == reference::r_erase(&t2);
+            trace(&format!("syntactically_equal({}, {}){tag}", reference::show(&t), reference::show(&t2)));
             let got = equality::syntactically_equal(&real_t, &real_t2);
             if got != want { return Some((format!("syntactically_equal({}, {}){tag}", reference::show(&t), reference::show(&t2)), format!("{got}"), format!("{want} (equality of the views with annotations erased)"), size(&t) + size(&t2))); }
         }
         "unify" => {
-            let t2 = if rng.below(5) == 0 { t.clone() } else if rng.below(4) == 0 { gen_term(rng, depth, 2) } else { perturb(&t, rng) };
+            let mut t2 = if rng.below(5) == 0 { t.clone() } else if rng.below(4) == 0 { gen_term(rng, depth, 2) } else { perturb(&t, rng) };
+            if rng.below(4) == 0 {
+                // a reduct of t (plain context): "judged equal to any term it reduces to"
+                let mut f = 300u32;
+                if let Some(w) = reference::r_whnf(&t, &Vec::new(), &mut f) { if rng.below(2) == 0 { t2 = w; } else { let mut f = 300u32; if let Some(n) = reference::r_nf(&t, &Vec::new(), &mut f) { t2 = n; } } }
+            }
             let real_t2 = from_r(&t2);
             let (mut f1, mut f2) = (600u32, 600u32);
             let with_defs = rng.below(3) == 0;
@@ -322,12 +338,15 @@ fn case_conv(target: &str, rng: &mut Rng) -> Option<(String, String, String, usi
             let n1 = reference::r_nf(&t, &rctx, &mut f1)?;        // both must have a normal form within the fuel, otherwise skipped
             let n2 = reference::r_nf(&t2, &rctx, &mut f2)?;
             let mut ctx = real_ctx(&rctx);
-            let got = unifier::unify(&real_t, &real_t2, &mut ctx);
             let input = format!("unify({}, {}) under {}{tag}", reference::show(&t), reference::show(&t2), show_ctx(&rctx));
+            trace(&input);
+            let got = unifier::unify(&real_t, &real_t2, &mut ctx);
             if !same_ctx(&ctx, &rctx) { return Some((input, format!("{got}, context of length {}", ctx.len()), "context unchanged".to_owned(), size(&t) + size(&t2))); }
             let same_nf = reference::r_erase(&n1) == reference::r_erase(&n2);
             if got && !same_nf { return Some((input, "true".to_owned(), format!("normal forms differ: {} vs {}", reference::show(&n1), reference::show(&n2)), size(&t) + size(&t2))); }
             if !got && reference::r_erase(&t) == reference::r_erase(&t2) { return Some((input, "false".to_owned(), "true (the two terms are equal up to erasure)".to_owned(), size(&t) + size(&t2))); }
+            // completeness (NOT covered by any contract: bounded evidence only): terms whose normal forms agree are judged equal
+            if !got && same_nf { return Some((input, "false".to_owned(), format!("true: both normalise to {} (completeness of the conversion check)", reference::show(&n1)), size(&t) + size(&t2))); }
         }
         _ => {}
     }
